@@ -91,6 +91,30 @@ Proof.
     + injection El as <-. split; reflexivity.
 Qed.
 
+(* number of labels below lb and membership, from the Rank128 answer *)
+Lemma label_rank_lt_count lb labels :
+  StronglySorted lt labels ->
+  label_rank_lt lb labels =
+  (count_lt (map N.of_nat labels) (N.of_nat lb), existsb (N.eqb (N.of_nat lb)) (map N.of_nat labels)).
+Proof.
+  induction labels as [|x r IH]; intros Hs; [reflexivity|].
+  inversion Hs as [|? ? Hs' Hf]; subst. rewrite Forall_forall in Hf.
+  cbn [label_rank_lt map existsb]. unfold count_lt. cbn [filter].
+  destruct (Nat.ltb_spec x lb) as [Hlt|Hge].
+  - assert ((N.of_nat x <? N.of_nat lb)%N = true) as -> by (apply N.ltb_lt; lia).
+    assert (N.eqb (N.of_nat lb) (N.of_nat x) = false) as -> by (apply N.eqb_neq; lia). cbn [orb length].
+    rewrite (IH Hs'). unfold count_lt. reflexivity.
+  - assert ((N.of_nat x <? N.of_nat lb)%N = false) as -> by (apply N.ltb_ge; lia).
+    rewrite (filter_all_false _ (map N.of_nat r)).
+    2:{ rewrite Forall_forall. intros y Hy. apply in_map_iff in Hy. destruct Hy as (z & <- & Hz). specialize (Hf z Hz). apply N.ltb_ge. lia. }
+    cbn [length]. f_equal.
+    destruct (Nat.eqb_spec x lb) as [->|Hne].
+    + rewrite N.eqb_refl. reflexivity.
+    + assert (N.eqb (N.of_nat lb) (N.of_nat x) = false) as -> by (apply N.eqb_neq; lia). cbn [orb].
+      symmetry. apply not_true_iff_false. intros He. apply existsb_exists in He. destruct He as (y & Hy & Ey).
+      apply N.eqb_eq in Ey. subst y. apply in_map_iff in Hy. destruct Hy as (z & Ez & Hz). specialize (Hf z Hz). lia.
+Qed.
+
 (* ---------- one built trie and its message ---------- *)
 Section OneTrie.
   Variables (o : opts) (keys : list key) (vals : option (list (list byte))) (T : trie) (r : tree).
@@ -164,6 +188,126 @@ Section OneTrie.
       assert (In (x, c) ch) as Hin by (eapply nth_error_In; exact Hc).
       rewrite <- (child_id r _ _ _ _ _ _ _ _ _ I Ht Hc).
       apply IH. eapply subtrees_trans; [exact Ht|eapply subtree_child; exact Hin].
+  Qed.
+  (* an inner node of the tree as the message shows it *)
+  Lemma node_inner id big step pfx fc ch :
+    In (Inner id big step pfx fc ch) (subtrees r) ->
+    exists ith wsz from to bm plen pfxb,
+      get_node m vs (N.of_nat id) = Val (DnInner ith wsz from to bm plen pfxb) /\
+      first_child m from = Val (N.of_nat fc) /\
+      last_child m to = Val (N.of_nat (fc + length ch - 1)) /\
+      (forall k, (k < (if big then 257 else 17))%N ->
+         left_child m from to bm k =
+         Val (N.of_nat (fc - 1 + count_lt (map N.of_nat (map fst ch)) k),
+              N.b2n (existsb (N.eqb k) (map N.of_nat (map fst ch))))) /\
+      1 <= fc /\ ch <> [] /\ StronglySorted lt (map fst ch).
+  Proof.
+    intros Ht.
+    pose proof (flat_nodes_at o keys vals T r _ Hb Hr Ht) as Hn. cbn [tree_id view_of_tree] in Hn.
+    destruct (children_fw nodes _ _ _ m vs Hwf Hem Ev _ _ _ _ _ _ _ Hn) as (ith & wsz & from & to & bm & plen & pfxb & Hgn & Hfst & Hlst & Hlc).
+    exists ith, wsz, from, to, bm, plen, pfxb. rewrite map_length in Hlst.
+    split; [exact Hgn|]. split; [exact Hfst|]. split; [exact Hlst|]. split; [exact Hlc|].
+    pose proof (wf_from_nth _ _ _ _ _ _ _ _ _ (flat_wf_from _ _ _ _ Hwf) Hn) as Hnode. cbn beta iota in Hnode.
+    destruct Hnode as (_ & Hfc & Hlok & _).
+    unfold labels_ok in Hlok. apply andb_true_iff in Hlok. destruct Hlok as [Hl1 _]. apply andb_true_iff in Hl1. destruct Hl1 as [Hne Hasc].
+    split; [lia|]. split; [destruct ch; [discriminate Hne|discriminate]|]. apply ascending_nat_sorted. exact Hasc.
+  Qed.
+
+  Lemma mleftmost_f : forall fuel t, In t (subtrees r) ->
+    mleftmost fuel m vs (tree_id t) = fleftmost fuel r (tree_id t).
+  Proof.
+    pose proof (built_ids_ok o keys vals T r Hb Hr) as I.
+    induction fuel as [|f IH]; intros t Ht; [reflexivity|].
+    cbn [mleftmost fleftmost]. rewrite (node_at_self r t I Ht).
+    destruct t as [id ord tail eidx|id big step pfx fc ch]; cbn [tree_id].
+    - rewrite (node_leaf id ord tail eidx Ht). reflexivity.
+    - destruct (node_inner _ _ _ _ _ _ Ht) as (ith & wsz & from & to & bm & plen & pfxb & Hgn & Hfst & _ & _ & _ & Hne & _).
+      rewrite Hgn, Hfst. rewrite Nat2N.id.
+      destruct ch as [|[x c] rest]; [congruence|].
+      assert (nth_error ((x, c) :: rest) 0 = Some (x, c)) as En by reflexivity.
+      pose proof (child_id r _ _ _ _ _ _ _ _ _ I Ht En) as Hcid. rewrite Nat.add_0_r in Hcid. rewrite <- Hcid.
+      apply IH. eapply subtrees_trans; [exact Ht|eapply subtree_child; left; reflexivity].
+  Qed.
+
+  Lemma mrightmost_f : forall fuel t, In t (subtrees r) ->
+    mrightmost fuel m vs (tree_id t) = frightmost fuel r (tree_id t).
+  Proof.
+    pose proof (built_ids_ok o keys vals T r Hb Hr) as I.
+    induction fuel as [|f IH]; intros t Ht; [reflexivity|].
+    cbn [mrightmost frightmost]. rewrite (node_at_self r t I Ht).
+    destruct t as [id ord tail eidx|id big step pfx fc ch]; cbn [tree_id].
+    - rewrite (node_leaf id ord tail eidx Ht). reflexivity.
+    - destruct (node_inner _ _ _ _ _ _ Ht) as (ith & wsz & from & to & bm & plen & pfxb & Hgn & _ & Hlst & _ & _ & Hne & _).
+      rewrite Hgn, Hlst. rewrite Nat2N.id.
+      destruct (exists_last Hne) as (ch' & [x c] & Ech).
+      assert (nth_error ch (length ch') = Some (x, c)) as En
+        by (rewrite Ech, nth_error_app2, Nat.sub_diag by lia; reflexivity).
+      pose proof (child_id r _ _ _ _ _ _ _ _ _ I Ht En) as Hcid.
+      assert (length ch = length ch' + 1) as Hlen by (rewrite Ech, app_length; reflexivity).
+      replace (fc + length ch - 1) with (fc + length ch') by lia. rewrite <- Hcid.
+      apply IH. eapply subtrees_trans; [exact Ht|eapply subtree_child; eapply nth_error_In; exact En].
+  Qed.
+
+  Lemma msearch_down_f qn : Forall (fun x => x < 16) qn ->
+    forall fuel t i lc rc, In t (subtrees r) ->
+    msearch_down fuel m vs qn (length qn) (tree_id t) i lc rc = fsearch_down fuel r qn (length qn) (tree_id t) i lc rc.
+  Proof.
+    intros Hq. pose proof (built_ids_ok o keys vals T r Hb Hr) as I.
+    induction fuel as [|f IH]; intros t i lc rc Ht; [reflexivity|].
+    cbn [msearch_down fsearch_down]. rewrite (node_at_self r t I Ht), (view_at t Ht).
+    destruct t as [id ord tail eidx|id big step pfx fc ch].
+    - cbn [tree_id view_of_tree]. rewrite (node_leaf id ord tail eidx Ht). reflexivity.
+    - cbn [tree_id view_of_tree].
+      destruct (node_inner _ _ _ _ _ _ Ht) as (ith & wsz & from & to & bm & plen & pfxb & Hgn & Hfst & Hlst & Hlc & Hfc & Hne & Hsorted).
+      rewrite Hgn.
+      destruct (advance3 qn (length qn) i step pfx) as [i1| |]; try reflexivity.
+      set (lb := label_at big qn i1).
+      assert (N.of_nat lb < (if big then 257 else 17))%N as Hlb.
+      { pose proof (label_at_bound big qn i1 Hq) as H. fold lb in H. destruct big; lia. }
+      rewrite (Hlc (N.of_nat lb) Hlb), Hfst, Hlst.
+      rewrite (label_rank_lt_count lb (map fst ch) Hsorted).
+      pose proof (label_rank_lt_le lb (map fst ch)) as Hnle.
+      pose proof (label_rank_lt_has lb (map fst ch)) as Hnhas.
+      rewrite (label_rank_lt_count lb (map fst ch) Hsorted) in Hnle, Hnhas. cbn [fst] in Hnle. rewrite map_length in Hnle, Hnhas.
+      set (n := count_lt (map N.of_nat (map fst ch)) (N.of_nat lb)) in *.
+      set (has := existsb (N.eqb (N.of_nat lb)) (map N.of_nat (map fst ch))) in *.
+      cbv zeta.
+      assert (HL : (if ((N.of_nat fc <=? N.of_nat (fc - 1 + n))%N && (N.of_nat (fc - 1 + n) <=? N.of_nat (fc + length ch - 1))%N)%bool
+                    then Some (N.to_nat (N.of_nat (fc - 1 + n))) else lc) =
+                   (if 0 <? n then Some (fc + n - 1) else lc)).
+      { destruct (Nat.ltb_spec 0 n).
+        - assert ((N.of_nat fc <=? N.of_nat (fc - 1 + n))%N = true) as -> by (apply N.leb_le; lia).
+          assert ((N.of_nat (fc - 1 + n) <=? N.of_nat (fc + length ch - 1))%N = true) as -> by (apply N.leb_le; lia).
+          cbn [andb]. f_equal. lia.
+        - assert ((N.of_nat fc <=? N.of_nat (fc - 1 + n))%N = false) as -> by (apply N.leb_gt; lia). reflexivity. }
+      rewrite HL. clear HL.
+      destruct has eqn:Ehas; cbn [N.b2n N.eqb].
+      + specialize (Hnhas n eq_refl).
+        assert (HR : (if ((N.of_nat fc <=? N.of_nat (fc - 1 + n) + 1 + 1)%N && (N.of_nat (fc - 1 + n) + 1 + 1 <=? N.of_nat (fc + length ch - 1))%N)%bool
+                      then Some (N.to_nat (N.of_nat (fc - 1 + n) + 1 + 1)) else rc) =
+                     (if fc + n + 1 <? fc + length ch then Some (fc + n + 1) else rc)).
+        { destruct (Nat.ltb_spec (fc + n + 1) (fc + length ch)).
+          - assert ((N.of_nat fc <=? N.of_nat (fc - 1 + n) + 1 + 1)%N = true) as -> by (apply N.leb_le; lia).
+            assert ((N.of_nat (fc - 1 + n) + 1 + 1 <=? N.of_nat (fc + length ch - 1))%N = true) as -> by (apply N.leb_le; lia).
+            cbn [andb]. f_equal. lia.
+          - assert ((N.of_nat (fc - 1 + n) + 1 + 1 <=? N.of_nat (fc + length ch - 1))%N = false) as -> by (apply N.leb_gt; lia).
+            rewrite andb_false_r. reflexivity. }
+        rewrite HR. clear HR.
+        assert (N.to_nat (N.of_nat (fc - 1 + n) + 1) = fc + n) as -> by lia.
+        destruct (Nat.eqb i1 (length qn)); [reflexivity|].
+        destruct (nth_error ch n) as [[x c]|] eqn:En; [|apply nth_error_None in En; lia].
+        rewrite <- (child_id r _ _ _ _ _ _ _ _ _ I Ht En).
+        apply IH. eapply subtrees_trans; [exact Ht|eapply subtree_child; eapply nth_error_In; exact En].
+      + assert (HR : (if ((N.of_nat fc <=? N.of_nat (fc - 1 + n) + 0 + 1)%N && (N.of_nat (fc - 1 + n) + 0 + 1 <=? N.of_nat (fc + length ch - 1))%N)%bool
+                      then Some (N.to_nat (N.of_nat (fc - 1 + n) + 0 + 1)) else rc) =
+                     (if fc + n <? fc + length ch then Some (fc + n) else rc)).
+        { destruct (Nat.ltb_spec (fc + n) (fc + length ch)).
+          - assert ((N.of_nat fc <=? N.of_nat (fc - 1 + n) + 0 + 1)%N = true) as -> by (apply N.leb_le; lia).
+            assert ((N.of_nat (fc - 1 + n) + 0 + 1 <=? N.of_nat (fc + length ch - 1))%N = true) as -> by (apply N.leb_le; lia).
+            cbn [andb]. f_equal. lia.
+          - assert ((N.of_nat (fc - 1 + n) + 0 + 1 <=? N.of_nat (fc + length ch - 1))%N = false) as -> by (apply N.leb_gt; lia).
+            rewrite andb_false_r. reflexivity. }
+        rewrite HR. reflexivity.
   Qed.
 End OneTrie.
 
